@@ -1335,6 +1335,15 @@ impl ObjectFile {
     }
 }
 #[cfg(endorpersand_lc3_ensemble_verif)]
+impl ObjectFile {
+    /// Verification hook: an object file holding exactly these blocks and no symbol table
+    /// (the only way to obtain a block of 65536 or more words; both file formats store the
+    /// block length in 16 bits).
+    pub fn verif_from_blocks(blocks: Vec<(u16, Vec<Option<u16>>)>) -> Self {
+        Self { block_map: blocks.into_iter().collect(), sym: None }
+    }
+}
+#[cfg(endorpersand_lc3_ensemble_verif)]
 impl SymbolTable {
     /// Verification hook: every label with its address, source offset and external flag.
     pub fn verif_labels(&self) -> Vec<(String, u16, usize, bool)> {
